@@ -500,6 +500,19 @@ func genQueries(rng *rand.Rand, ws *worldSpec, w b6.World, indexed []b6.FeatureI
 			nq = namedQuery{kind: "tag&" + kind, q: b6.Intersection{b6.Keyed{Key: key}, q}, spatial: q}
 		}
 		out = append(out, nq)
+		// the same region again in a form whose spatial iterator is driven by Advance rather than Next: under a
+		// key range of one feature type (the first call is Advance(first ID of the type)), or as the second
+		// member of an intersection with everything (leapfrog: Advance to every candidate of the first member)
+		switch rng.Intn(8) {
+		case 0:
+			out = append(out, namedQuery{kind: "typed-point&" + kind, q: b6.Typed{Type: b6.FeatureTypePoint, Query: q}, spatial: q})
+		case 1:
+			out = append(out, namedQuery{kind: "typed-path&" + kind, q: b6.Typed{Type: b6.FeatureTypePath, Query: q}, spatial: q})
+		case 2:
+			out = append(out, namedQuery{kind: "typed-area&" + kind, q: b6.Typed{Type: b6.FeatureTypeArea, Query: q}, spatial: q})
+		case 3:
+			out = append(out, namedQuery{kind: "all&" + kind, q: b6.Intersection{b6.All{}, q}, spatial: q})
+		}
 	}
 	for _, p := range ws.probePoints {
 		out = append(out, namedQuery{kind: "point", q: b6.IntersectsPoint{Point: s2.PointFromLatLng(p)}, spatial: b6.IntersectsPoint{Point: s2.PointFromLatLng(p)}})
